@@ -44,13 +44,17 @@ ASSUMPTIONS = ["work = interpreter control-flow events (PY_START + JUMP + BRANCH
                "8 measured appends of a rung, compared between rungs for subjects without a timeframe: it sees work "
                "done below the interpreter (a C-level copy of the candle list) that executes no Python branch"]
 
+# a manager WITHOUT a timeframe extends its list in place: there the candle manager and the candles
+# themselves are measured too (a timeframe manager re-collapses its list by construction, see ASSUMPTIONS)
+MEASURED_BASE = MEASURED + ("core/candle_manager.py", "core/candle.py")
 _METER = None
 
 
-def meter():
+def meter(base=False):
     global _METER
     if _METER is None:
         _METER = steps.LineMeter(MEASURED)
+    _METER.set_include(MEASURED_BASE if base else MEASURED)
     return _METER
 
 
@@ -157,7 +161,9 @@ def plan(seed, subbatch):
             shift += (end - nxt) + base_s
             shift += (-shift) % tf_s if tf else 0
     return {"format": 1, "property": ID, "seed": seed, "subbatch": subbatch,
-            "config": {"kind": kind, "members": members, "base_s": base_s, "rungs": rungs, "sparse": sparse},
+            "config": {"kind": kind, "members": members, "base_s": base_s, "rungs": rungs, "sparse": sparse,
+                       "probe_bare": sub_rng(seed, "probe-form").random() < 0.3,
+                       "probe_ties": sub_rng(seed, "probe-ties").random() < 0.25},
             "ops": ops, "fired": dict(fired)}
 
 
@@ -199,13 +205,17 @@ def execute(trace, ctx=None):
                     per = []
                     calls = []
                     mem = []
-                    mt = meter()
-                    for row in op["candles"]:
+                    mt = meter(base=not any(m["common"].get("timeframe") for m in cfg["members"]))
+                    for k_row, row in enumerate(op["candles"]):
+                        if cfg.get("probe_ties") and k_row % 2 == 1:
+                            row = [last_ts] + list(row[1:])     # same second as the candle before it (legal)
                         if last_ts is not None and row[0] < last_ts:
                             continue
                         last_ts = row[0]
                         delivered += 1
                         c = mk_candles([row])
+                        if cfg.get("probe_bare"):
+                            c = c[0]      # a single candle handed over as a bare Candle object
                         lines, ncalls, nbytes = mt.measure_with_memory(subject.append, c)
                         per.append(lines)
                         calls.append(ncalls)
